@@ -41,16 +41,30 @@ def main():
                 print("osrewrite: %s does not exist in the tree" % src)
                 return 2
             dst = os.path.join(rdir, rel.replace("/", "__"))
-            p = subprocess.run([tool, src, dst], capture_output=True, text=True)
+            # several vcheck runs may regenerate this directory at once: write to a private
+            # temp name, keep the existing file when the content is unchanged, else rename atomically
+            tmp = "%s.%d.tmp" % (dst, os.getpid())
+            p = subprocess.run([tool, src, tmp], capture_output=True, text=True)
             if p.returncode != 0:
                 print("osrewrite failed on %s:\n%s%s" % (rel, p.stdout, p.stderr))
                 return 2
+            same = False
+            try:
+                with open(tmp, "rb") as a, open(dst, "rb") as b:
+                    same = a.read() == b.read()
+            except OSError:
+                pass
+            if same:
+                os.remove(tmp)
+            else:
+                os.replace(tmp, dst)
             replace[src] = dst
     os.makedirs(outdir, exist_ok=True)
     path = os.path.join(outdir, "overlay.json")
-    with open(path + ".tmp", "w") as f:
+    tmp = "%s.%d.tmp" % (path, os.getpid())
+    with open(tmp, "w") as f:
         json.dump({"Replace": replace}, f, indent=1, sort_keys=True)
-    os.replace(path + ".tmp", path)
+    os.replace(tmp, path)
     print(path)
     return 0
 
